@@ -1,5 +1,6 @@
 """C03 — Scanner best hit is a maximum-scoring position that meets the threshold."""
 from . import c02
+from translate import scan_skel
 
 
 def nontrivial(line):
@@ -34,12 +35,14 @@ SPEC = dict(
     id="C03",
     group="scan",
     props_file="C03.v",
+    more_props=[("C03Source.v", "LMScan.C03Source")],
+    translate=scan_skel.translate,
     module="LMScan.C03",
     harness_bin="scan",
     harness_args=["c03"],
     driver_args=["c03"],
     ml_modules=["scan_model"],
-    n={"quick": 1000, "thorough": 10000},
+    n={"quick": 1000, "thorough": 8500},
     search_n={"quick": 3000, "thorough": 20000},
     nontrivial=nontrivial,
     histogram=histogram,
